@@ -28,7 +28,7 @@ the sequence into one, so that the comparison points are the same as on the impl
   ['editop', c, name, edits]     edits the eParameters of the EOperation object last known as `name` of class c (declared
                                  there, or removed from there) IN PLACE: ['append', p] ['insert', i, p] ['remove', i]
                                  ['flip', i] (required flag) ['move', i, j]; no model op (the model's operations are values)
-  ['redecl', dst, src, name, via]  dst.eOperations.append/extend/insert(0, ..) of THAT SAME object (a move when it is still
+  ['redecl', dst, src, name, via]  dst.eOperations.append/extend/insert(len, ..)/+= of THAT SAME object (a move when it is still
                                  declared in src)                                               = [rmop src] addop dst <current params>
 
 Run as a script (`python -P harness/metaedit_io.py`) it is the isolated worker:
@@ -560,7 +560,7 @@ class Impl:
                 if via == 'extend':
                     coll.extend([o])
                 elif via == 'insert':
-                    coll.insert(0, o)
+                    coll.insert(len(coll), o)
                 elif via == 'iadd':
                     coll += [o]
                 else:
